@@ -3,7 +3,9 @@ Both builds of every program (optimize on / off) are validated, for all inputs, 
 specification program with the kernel-checked validator: two blueprints that provably compute the
 source's values on every output for every input are observationally equivalent.  Programs are rich
 in repeated sub-expressions (same expression under several names, with and without projection) so
-that CSE and constant propagation fire."""
+that CSE and constant propagation fire, and in NEAR MISSES of expressions already present (operands
+exchanged under the same operator, sibling operators on the same operands, x op k next to k op x),
+which a common-subexpression key must keep apart."""
 from __future__ import annotations
 
 import random
@@ -32,7 +34,61 @@ def with_repeats(seed):
                 out.append(("sig", next(names), ("proj", e, r.choice(gen_scalar.SIGNALS))))
             else:
                 out.append(("sig", next(names), ("bin", "+", e, ("var", i))))
-    return out if gen_scalar.program_safe(out) else p
+        # near misses of an expression that is already there: the same operator with the operands
+        # exchanged, or the same operands under a sibling operator -- values a common-subexpression
+        # key must keep apart
+        if r.random() < 0.5:
+            v = near_miss(p[i][2], r)
+            if v is not None:
+                out.append(("sig", next(names), v))
+    # direct pairs  x op k / k op x  and  x op y / y op x  on one output type
+    pool = [i for i, d in enumerate(p) if d[0] in ("in", "sig")]
+    for _ in range(r.randint(0, 2)):
+        if not pool:
+            break
+        op = r.choice(["-", "/", "%", "**", "<<", ">>", "-", "**"])
+        x = ("var", r.choice(pool))
+        y = ("var", r.choice(pool)) if r.random() < 0.4 else ("int", r.choice([2, 3, 5, 7]))
+        if y == x:
+            continue
+        out.append(("sig", next(names), ("bin", op, x, y)))
+        out.append(("sig", next(names), ("bin", op, y, x)))
+    if gen_scalar.program_safe(out) and gen_scalar.s14_free(out):
+        return out
+    return p
+
+
+NONCOMM = ["-", "/", "%", "**", "<<", ">>"]
+
+
+def near_miss(e, r):
+    """a copy of e with one binary / comparison node changed: operands exchanged, or a sibling operator"""
+    paths = []
+
+    def walk(x, path):
+        if not isinstance(x, tuple):
+            return
+        if x[0] in ("bin", "cmp"):
+            paths.append(path)
+        for k, y in enumerate(x):
+            walk(y, path + (k,))
+
+    walk(e, ())
+    if not paths:
+        return None
+    path = r.choice(paths)
+
+    def rebuild(x, path):
+        if not path:
+            if r.random() < 0.7:
+                return (x[0], x[1], x[3], x[2])
+            if x[0] == "bin":
+                return ("bin", r.choice([o for o in ["+", "-", "*", "/", "%"] if o != x[1]]), x[2], x[3])
+            return ("cmp", r.choice([o for o in ["<", ">", "==", ">=", "<=", "!="] if o != x[1]]), x[2], x[3])
+        k = path[0]
+        return tuple(rebuild(y, path[1:]) if j == k else y for j, y in enumerate(x))
+
+    return rebuild(e, path)
 
 
 def make_items(seed, n):
@@ -66,7 +122,8 @@ def extra_cov(items):
 def run(tier, seed, t0):
     return c01.run(tier, seed, t0, prop=PROP, n_quick=25, n_thorough=250, make_items=make_items,
                    props_file="Props/C01.v", extra_cov=extra_cov,
-                   rule="random scalar programs with repeated sub-expressions, each compiled with and without "
+                   rule="random scalar programs with repeated sub-expressions and near-miss variants (operands exchanged, "
+                        "sibling operator, x op k beside k op x), each compiled with and without "
                         "optimisation; both blueprints validated for all inputs against the same specification; "
                         "non-trivial = certified pair; known-finding regions classified per blueprint")
 
